@@ -14,48 +14,8 @@ open Cctp Gen Genesis
 
 /-- two sorted stores that answer every lookup alike are the same list (hence the same iteration order,
     the same exported genesis, the same root hash input). -/
-theorem store_ext {s1 s2 : Store} (h1 : s1.WF) (h2 : s2.WF) (h : ∀ k, s1.get k = s2.get k) : s1 = s2 := by
-  induction s1 generalizing s2 with
-  | nil =>
-    cases s2 with
-    | nil => rfl
-    | cons p r => obtain ⟨k, v⟩ := p; have := h k; simp [Store.get] at this
-  | cons p1 r1 ih =>
-    obtain ⟨k1, v1⟩ := p1
-    cases s2 with
-    | nil => have := h k1; simp [Store.get] at this
-    | cons p2 r2 =>
-      obtain ⟨k2, v2⟩ := p2
-      obtain ⟨a1, b1⟩ := h1
-      obtain ⟨a2, b2⟩ := h2
-      have hk : k1 = k2 := by
-        rcases blt_trichotomy k1 k2 with t | t | t
-        · exfalso
-          have hn : Store.get ((k2, v2) :: r2) k1 = none := by
-            apply Store.get_none_of_lt
-            intro e he
-            rcases List.mem_cons.mp he with rfl | he
-            · exact t
-            · exact blt_trans t (a2 e he)
-          have := h k1; rw [hn] at this; simp [Store.get] at this
-        · exact t
-        · exfalso
-          have hn : Store.get ((k1, v1) :: r1) k2 = none := by
-            apply Store.get_none_of_lt
-            intro e he
-            rcases List.mem_cons.mp he with rfl | he
-            · exact t
-            · exact blt_trans t (a1 e he)
-          have := h k2; rw [hn] at this; simp [Store.get] at this
-      subst hk
-      have hv : v1 = v2 := by have := h k1; simpa [Store.get] using this
-      subst hv
-      congr 1
-      apply ih b1 b2
-      intro k
-      by_cases e : k = k1
-      · subst e; rw [Store.get_none_of_lt r1 k a1, Store.get_none_of_lt r2 k a2]
-      · have := h k; simpa [Store.get, e] using this
+theorem store_ext {s1 s2 : Store} (h1 : s1.WF) (h2 : s2.WF) (h : ∀ k, s1.get k = s2.get k) : s1 = s2 :=
+  Store.ext_of_get h1 h2 h
 
 /-- writes to distinct keys commute. -/
 theorem set_commute (s : Store) (hs : s.WF) (k1 k2 : Bytes) (v1 v2 : Val) (hne : k1 ≠ k2) :
